@@ -282,7 +282,9 @@ class SetEncoder(encoder.SequenceEncoder):
                 else:
                     chunk = encodeFun(comp, compType, **options)
 
-                    if wrapType.tagSet and not wrapType.isSameTypeWith(comp):
+                    if wrapType.tagSet and not (
+                            comp.typeId == univ.Any.typeId and
+                            wrapType.isSameTypeWith(comp)):
                         chunk = encodeFun(chunk, wrapType, **options)
 
             else:
